@@ -5,6 +5,9 @@ new text (context + added lines). The thorough tier applies them in memory and r
 import json, glob, os, sys
 src = sys.argv[1] if len(sys.argv) > 1 else '/verif/neutral'
 out = []
+kfa = {}
+if os.path.exists('/verif/neutral/KNOWN_FALSE_ALARMS.json'):
+    kfa = {k for k in json.load(open('/verif/neutral/KNOWN_FALSE_ALARMS.json')) if ':' in k}
 for d in sorted(glob.glob(src + '/C*')):
     nid = os.path.basename(d)
     meta = json.load(open(d + '/meta.json'))
@@ -26,6 +29,8 @@ for d in sorted(glob.glob(src + '/C*')):
         elif cur and edits and line.startswith('\\'):
             pass
     es = [{'file': e['file'], 'old': '\n'.join(e['old']), 'new': '\n'.join(e['new']) + ('\n' if e['create'] else ''), 'create': e['create']} for e in edits]
-    out.append({'props': [meta['property']], 'name': 'neutral-' + nid, 'positive': False, 'rule': '', 'edits': es})
+    # a documented false alarm on the own property (DESIGN.md 9.9) stays registered but is not counted as a failed control
+    rule = 'known-false-alarm' if (nid + ':' + meta['property']) in kfa else ''
+    out.append({'props': [meta['property']], 'name': 'neutral-' + nid, 'positive': False, 'rule': rule, 'edits': es})
 json.dump(out, open('/verif/sa/internal/rules/controls_neutral.json', 'w'), indent=1)
 print(len(out), 'neutral controls')
